@@ -90,7 +90,14 @@ RULE = ("case = (kind, problem, draws): kinds sort|sd|ssd (integer table problem
         "least-violating member is returned); kinds sort / ssd (one run each, deterministic), sd (two scripted starts and one seeded start per problem), "
         "session (30%), op_hc2 (every third case: stored objectives of the returned rows, also compared in Coq), ga: every one of the 13 classes x 3 "
         "problems (quick; 24 thorough) x 3 seeds, one of them elementwise=False; vector encodings with pairwise distinct per-variable weights, "
-        "1-2 inequality and 1 equality constraint, real variables quantised to quarters")
+        "1-2 inequality and 1 equality constraint, real variables quantised to quarters. SYSTEMATIC hill-climb block (_systematic_hc, both tiers, "
+        "336 fixed cases from a PRNG with a constant seed - the same whatever VERIF_SEED is): every memetic mutation class with a hillclimb "
+        "(the four op_hc2 classes, MutatorA, MutatorB) x (k of k+1, k = 2,3,4; k of k+2, k = 3,4,5) x nhcstep in (default, 2k, 3k) x two additive "
+        "two-objective tables x (identity | drawn tiles), more steps than unused candidates in every one; the draws are written into the case and "
+        "handed through random_state (_Forced: answered by kind of request - loci / allele tiles, single allele indices - so that they drive a per-step "
+        "as well as a tiled allele draw) and force the critical sequence: step 0 gives up the best member for allele j* and is rejected (the lead "
+        "dominates), the first step of the next allele tile draws j* again at the locus of the worst member (accepted); judged by the same predicate "
+        "and Coq correspondence as every other op_hc2 / op_hcAB case")
 TRUSTED = ["pymoo 0.6.2 GA/NSGA2/NSGA3 loops and Result extraction (not modelled; every run is checked by the result monitor)",
            "numpy.random.choice(..., replace=False) yields distinct positions (oracle contract assumed by sampling_feasible)",
            "the operator cases hand a recording script as random_state (positionally / by keyword) or hand none and replace the process-wide streams "
@@ -358,6 +365,68 @@ def _session(rng):
     return {"kind": "session", "steps": steps, "ix": [rng.sample(range(len(t["cand"])), t["k"]) for t in steps],
             "ga": rng.random() < 0.3, "seed": rng.randint(0, 10 ** 6)}
 
+def _forced_hc(r, k, na, nh, variant, identity):
+    """one FORCED hill-climb situation: k members, na = 1 | 2 unused candidates, nh steps (None: the default, k) with nh > na.
+    The draws (tile-wise permutations of the loci and of the allele indices, so that they answer a per-step draw as well as a tiled
+    one) put the CRITICAL SEQUENCE first: step 0 exchanges locus i1 for allele j* and is REJECTED (the lead dominates the proposal);
+    step na - the first of the next allele tile - draws the same allele index j* at another locus i2.  Two-objective additive table:
+      member at i1 (-6,-6) (the best member: giving it up for a_j* (1,1) is dominated by the lead);
+      member at i2 ( 6, 6) (the worst member: exchanging it for a_j* dominates the lead, the exchange is kept);
+      other members (0,4) and the other unused candidate (9,9) [variant 0: every other proposal is rejected]
+                 or (0,0) and (2,-2)                          [variant 1: the proposals in between are non-dominated: stashed, restored].
+    Returns (problem spec, start chromosome, flat loci draws, flat allele draws)"""
+    n = k + na; M = n + 2; steps = k if nh is None else nh
+    assert steps > na and k > na
+    cand = r.sample(range(M), n); x = r.sample(cand, k)
+    def tiled(a):
+        out = []
+        for t in range(steps // a): out += list(range(a)) if identity else r.sample(range(a), a)
+        return out + (list(range(steps % a)) if identity else r.sample(range(a), steps % a))
+    loci = tiled(k); alle = tiled(na)
+    jstar = alle[0]
+    t = alle[na:2 * na]                               # the next allele tile (possibly a partial one) starts with the same index
+    if jstar in t: t.remove(jstar); t = [jstar] + t
+    else: t = [jstar] + t[:-1]
+    alle[na:2 * na] = t
+    i1, i2 = loci[0], loci[na]
+    rest = [c for c in cand if c not in x]            # the operators' allele pool: the unused candidates in set-space order
+    w = {c: ((0, 4) if variant == 0 else (0, 0)) for c in x}
+    w[x[i1]] = (-6, -6); w[x[i2]] = (6, 6)
+    for j, c in enumerate(rest): w[c] = (1, 1) if j == jstar else ((9, 9) if variant == 0 else (2, -2))
+    W = [[w.get(e, (0, 0))[o] for e in range(M)] for o in range(2)]
+    p = {"M": M, "cand": cand, "k": k, "W": W, "P": [], "owt": [1, 1], "C": [], "cap": [], "clip": True, "iwt": [], "D": [], "tgt": [], "ewt": []}
+    return p, x, loci, alle
+
+def _systematic_hc():
+    """the FIXED block of hill-climb cases (own PRNG with a constant seed: the same cases whatever the run's seed): every memetic
+    mutation class with a hillclimb x (k of k+1, k of k+2) x nhcstep in (default, 2k, 3k) x two objective tables x (identity | drawn
+    tiles); more steps than unused candidates in every one, scripted draws handed through random_state (_Forced)"""
+    r = random.Random(60606)
+    cases = []
+    for na, ks in ((1, (2, 3, 4)), (2, (3, 4, 5))):
+        for k in ks:
+            for variant in (0, 1):
+                for identity in (True, False):
+                    for nh in (None, 2 * k, 3 * k):
+                        for which in (HC2[0], HC2[2]):
+                            p, x, loci, alle = _forced_hc(r, k, na, nh, variant, identity)
+                            cases.append({"kind": "op_hc2", "which": which, "prob": p, "x": x, "nhcstep": nh, "seed": 0, "elementwise": not (identity and variant),
+                                          "rs": "kw", "script": {"tiles": loci + alle, "scalar": alle + [0]}})
+                        for ab in ("A", "B"):
+                            p, x, loci, alle = _forced_hc(r, k, na, nh, variant, identity)
+                            cases.append({"kind": "op_hcAB", "which": ab, "prob": p, "x": x, "nhcstep": nh, "seed": 0, "rs": "kw",
+                                          "script": {"tiles": loci + alle, "scalar": [r.randrange(3)]}})
+                    # one step per locus in chromosome order, one allele index drawn at each (no nhcstep parameter)
+                    p, x, loci, alle = _forced_hc(r, k, na, None, variant, True)
+                    if not identity: alle = alle[:2 * na] + [r.randrange(na) for _ in alle[2 * na:]]
+                    cases.append({"kind": "op_hc2", "which": HC2[3], "prob": p, "x": x, "nhcstep": None, "seed": 0, "elementwise": True, "rs": "kw",
+                                  "script": {"tiles": alle, "scalar": alle}})
+                    # one locus drawn, every unused candidate tried at it
+                    p, x, loci, alle = _forced_hc(r, k, na, None, variant, identity)
+                    cases.append({"kind": "op_hc2", "which": HC2[1], "prob": p, "x": x, "nhcstep": None, "seed": 0, "elementwise": True, "rs": "kw",
+                                  "script": {"tiles": [], "scalar": [loci[na] if identity else loci[0]]}})
+    return cases
+
 def gen_cases(rng, tier):
     q = tier == "quick"
     _audit_entry_points()
@@ -540,6 +609,8 @@ def gen_cases(rng, tier):
             if r == 2 or rng.random() < 0.1: c["elementwise"] = False
             if rng.random() < 0.4: c["rng"] = True
             cases.append(c)
+    # --- systematic hill-climb block: fixed cases, independent of the run's seed (both tiers)
+    cases += _systematic_hc()
     return cases
 
 # ------------------------------------------------------------------------------------------------ pure-python evaluation (predicate side)
@@ -748,6 +819,49 @@ class _Script:
         self.log.append({"fn": "random", "size": None if size is None else cnt, "u": [float(v).hex() for v in vs]})
         return vs[0] if size is None else numpy.array(vs, dtype=float)
 
+class _Forced:
+    """scripted generator of the SYSTEMATIC hill-climb cases: the draws are written into the case (independent of the run's seed) and are
+    answered by KIND of request, so that the same script drives any ordering of the requests:
+      choice(a, m, replace=False)  <- the next m entries of script["tiles"] (the loci tiles followed by the allele tiles, flat);
+      choice(a) (one index)         <- the next entry of script["scalar"] (taken modulo len(a));
+      random(m)                     <- the next m entries of script["u"] (default 63/64);
+    a request the script cannot answer with valid indices (queue empty, value out of range, repeated value in a draw without
+    replacement) is answered by a generator with a FIXED seed.  Requests are logged in the format of _Script"""
+    def __init__(self, sc):
+        self.tiles = list(sc.get("tiles", [])); self.scalar = list(sc.get("scalar", [])); self.u = list(sc.get("u", []))
+        self.r = random.Random(sc.get("fallback", 0)); self.log = []
+    def choice(self, a, size=None, replace=True, p=None):
+        arr = numpy.arange(a) if isinstance(a, (int, numpy.integer)) else numpy.asarray(a)
+        n = len(arr)
+        cnt = 1 if size is None else int(size)
+        if n == 0 and cnt > 0: raise ValueError("a cannot be empty unless no samples are taken")
+        if size is None:
+            ix = [int(self.scalar.pop(0)) % n if self.scalar else self.r.randrange(n)]
+        elif not replace:
+            if cnt > n: raise ValueError("Cannot take a larger sample than population when 'replace=False'")
+            head = [int(v) for v in self.tiles[:cnt]]
+            if len(head) == cnt and len(set(head)) == cnt and all(0 <= v < n for v in head):
+                ix = head; del self.tiles[:cnt]
+            else:
+                ix = self.r.sample(range(n), cnt)
+        else:
+            ix = [self.r.randrange(n) for _ in range(cnt)]
+        self.log.append({"fn": "choice", "n": n, "size": None if size is None else cnt, "replace": bool(replace), "ix": ix})
+        if size is None: return arr[ix[0]]
+        return arr[numpy.array(ix, dtype=int)]
+    def randint(self, low, high=None, size=None):
+        assert size is None
+        if high is None: low, high = 0, low
+        if high <= low: raise ValueError("low >= high")
+        v = self.r.randrange(low, high)
+        self.log.append({"fn": "randint", "low": int(low), "high": int(high), "v": int(v)})
+        return v
+    def random(self, size=None):
+        cnt = 1 if size is None else int(size)
+        vs = [float(self.u.pop(0)) if self.u else 63 / 64.0 for _ in range(cnt)]
+        self.log.append({"fn": "random", "size": None if size is None else cnt, "u": [float(v).hex() for v in vs]})
+        return vs[0] if size is None else numpy.array(vs, dtype=float)
+
 class _patched_random:
     """the process-wide streams replaced by a script: numpy.random's module functions and the global_prng object pymoo_addon falls
     back to when it is handed no generator"""
@@ -766,9 +880,9 @@ def _drawn(case, call):
     operator: "kw" / "pos" - handed as random_state (the process-wide streams are replaced by a second script that must stay
     untouched); "none" / "omitted" - random_state=None / not passed: the operator must fall back to the process-wide stream, which
     is the script.  Returns (result, request log, number of draws from the process-wide streams while a generator was handed)"""
-    s = _Script(case["seed"]); rs = case.get("rs", "kw")
+    s = _Forced(case["script"]) if "script" in case else _Script(case["seed"]); rs = case.get("rs", "kw")
     if rs in ("kw", "pos"):
-        g = _Script(case["seed"] + 1)
+        g = _Script(case.get("seed", 0) + 1)
         with _patched_random(g):
             r = call((s,), {}) if rs == "pos" else call((), {"random_state": s})
         return r, s.log, len(g.log)
@@ -1458,6 +1572,7 @@ def describe(case, out):
     d = {"kind": kind, "raised": "exc" in out}
     if kind == "session": d["calls"] = 3 * len(case["steps"]); d["ga"] = bool(case.get("ga"))
     if kind == "op_hc2": d["which"] = case["which"]
+    if kind in ("op_hc2", "op_hcAB"): d["draws"] = "systematic script" if "script" in case else "case-seeded script"
     if kind == "op_dom": d["both_feasible"] = case["cv1"] <= 0 and case["cv2"] <= 0
     if kind in ("sort", "sd", "ssd"):
         p = case["prob"]; n = len(p["cand"]); k = p["k"]
